@@ -883,6 +883,87 @@ Lemma race_schedule_locked :
   received s = [] /\ In (thash t) (exec_keys s).
 Proof. vm_compute. auto. Qed.
 
+(* ---------- the chain lock: PackForCast never runs between the halves of a MarkExecuted ---------- *)
+Lemma lstep_holder_chain lim s o tid :
+  holder_chain (holder (lstep lim s o)) = Some tid ->
+  holder_chain (holder s) = Some tid \/
+  (exists txs ev, o = LMarkW tid txs ev) \/ (exists txs ev, o = LUnmarkB tid txs ev).
+Proof.
+  destruct s as [p h].
+  destruct o as [t0 t|t0|t0 txs ev|t0|t0 txs ev|t0|o];
+  destruct h as [[tid' [t' b'|txs' ev'|rest']]|]; simpl; intro H;
+  try (left; exact H); try discriminate.
+  - destruct (t0 =? tid'); simpl in H; [discriminate | discriminate].
+  - inversion H; subst. right. left. eauto.
+  - destruct (t0 =? tid'); simpl in H; [discriminate | left; exact H].
+  - destruct txs as [|x r]; simpl in H; discriminate.
+  - destruct txs as [|x r]; simpl in H; [left; exact H | left; exact H].
+  - destruct txs as [|x r]; simpl in H; [left; exact H | left; exact H].
+  - destruct txs as [|x r]; simpl in H; [discriminate|].
+    destruct r; simpl in H; [discriminate|]. inversion H; subst. right. right. eauto.
+  - destruct rest' as [|x r]; simpl in H; [left; exact H|].
+    destruct (N.eqb_spec t0 tid') as [->|]; simpl in H; [|left; exact H].
+    destruct r; simpl in H; [discriminate | left; exact H].
+  - destruct (needs_lock o); simpl in H; [discriminate | discriminate].
+  - destruct (needs_lock o); simpl in H; left; exact H.
+  - destruct (needs_lock o); simpl in H; left; exact H.
+Qed.
+
+Definition cK (s : cstate) : Prop :=
+  (forall tid, holder_chain (holder (ls s)) = Some tid -> cw s = Some tid) /\
+  (cw s <> None -> cr s = []).
+
+Lemma cstep_K lim s o : cK s -> cK (cstep lim s o).
+Proof.
+  intro HK. destruct o as [tid|tid|tid|tid|tid|o]; simpl.
+  - destruct (cw s) eqn:Ew; [exact HK|]. destruct (cr s) eqn:Er; [|exact HK].
+    destruct HK as [K1 K2]. split; simpl; auto. intros t Ht. specialize (K1 t Ht). congruence.
+  - destruct (cw s) as [w|] eqn:Ew; [|exact HK].
+    destruct (N.eqb_spec w tid) as [->|]; simpl; [|exact HK].
+    destruct (holder_chain (holder (ls s))) as [h|] eqn:Eh; simpl.
+    + destruct (N.eqb_spec h tid) as [->|Hn]; simpl; [exact HK|].
+      exfalso. destruct HK as [K1 _]. specialize (K1 h Eh). congruence.
+    + split; simpl; [intros t Ht; rewrite Eh in Ht; discriminate | congruence].
+  - destruct (cw s) eqn:Ew; [exact HK|]. destruct HK as [K1 K2]. split; simpl; [|congruence].
+    intros t Ht. specialize (K1 t Ht). congruence.
+  - destruct HK as [K1 K2]. split; simpl; auto. intro Hw. rewrite (K2 Hw). reflexivity.
+  - exact HK.
+  - destruct (chain_ok s o) eqn:Eo; [|exact HK]. destruct HK as [K1 K2]. split; simpl; auto.
+    intros t Ht. apply lstep_holder_chain in Ht as [Ht|[[txs [ev ->]]|[txs [ev ->]]]]; auto.
+    + simpl in Eo. destruct (cw s) as [w|]; [|discriminate]. apply N.eqb_eq in Eo. congruence.
+    + simpl in Eo. destruct (cw s) as [w|]; [|discriminate]. apply N.eqb_eq in Eo. congruence.
+Qed.
+
+Lemma crun_K lim sched : forall s, cK s -> cK (crun lim s sched).
+Proof. induction sched; simpl; intros; auto. apply IHsched. apply cstep_K. auto. Qed.
+
+Lemma cinit_K : cK cinit.
+Proof. split; simpl; [discriminate | reflexivity]. Qed.
+
+(* the chain-level steps only ever perform pool-level steps *)
+Lemma crun_projects lim sched : forall s sched0,
+  ls s = lrun lim linit sched0 -> exists sched', ls (crun lim s sched) = lrun lim linit sched'.
+Proof.
+  induction sched as [|o sched IH]; intros s sched0 H; simpl; [eauto|].
+  destruct o as [tid|tid|tid|tid|tid|o]; simpl.
+  - destruct (cw s), (cr s); eapply IH; eauto.
+  - destruct (cw s); [|eapply IH; eauto]. destruct (_ && _); eapply IH; eauto.
+  - destruct (cw s); eapply IH; eauto.
+  - eapply IH; eauto.
+  - eapply IH; eauto.
+  - destruct (chain_ok s o); [|eapply IH; eauto].
+    apply (IH _ (sched0 ++ [o])). simpl. unfold lrun. rewrite fold_left_app. simpl.
+    fold (lrun lim linit sched0). rewrite <- H. reflexivity.
+Qed.
+
+Lemma readers_mark_idle lim sched :
+  let s := crun lim cinit sched in cr s <> [] -> mark_idle (ls s).
+Proof.
+  cbv zeta. intro Hr. destruct (crun_K lim sched cinit cinit_K) as [K1 K2].
+  unfold mark_idle. destruct (holder (ls (crun lim cinit sched))) as [[tid [t b|txs ev|rest]]|] eqn:Eh; auto.
+  apply Hr. apply K2. rewrite (K1 tid); [discriminate | reflexivity].
+Qed.
+
 (* ---------- background expiry: the timed pool refines the untimed one ---------- *)
 Lemma tstep_erase lim s o : tp (tstep lim s o) = step lim (tp s) (erase1 s o).
 Proof. destruct o; reflexivity. Qed.
@@ -922,11 +1003,191 @@ Proof.
   apply (proj1 (locked_schedules lim sched)). exact Hidle.
 Qed.
 
+Lemma pack_chain_schedule lim sched f st cap :
+  p018 f = true -> p023 f || p021 f = true ->
+  let s := crun lim cinit sched in
+  cr s <> [] ->
+  let p := pack f st cap (lpool (ls s)) in
+  NoDup (hashes p) /\ N.of_nat (length p) <= cap /\ incl p (received (lpool (ls s))) /\
+  (forall t, In t p -> ~ In (thash t) (exec_keys (lpool (ls s)))) /\
+  StronglySorted asc_rel p /\ not_ahead st p.
+Proof.
+  intros H18 Hf s Hr.
+  pose proof (readers_mark_idle lim sched Hr) as Hi. fold s in Hi.
+  destruct (crun_projects lim sched cinit [] eq_refl) as [sched' E]. fold s in E.
+  rewrite E in *. apply pack_any_schedule; auto.
+Qed.
+
 Lemma timed_refines_empty lim tops :
   let s := tp (trun lim (mkT empty []) tops) in (exists ops, s = run lim empty ops) /\ inv s.
 Proof.
   cbv zeta. split; [apply (timed_refines lim tops (mkT empty [])) | apply timed_inv].
 Qed.
+
+(* ---------- the evicted cache is write-only: nothing the pool decides depends on it ---------- *)
+Definition eqre (s s' : pool) : Prop := received s = received s' /\ executed s = executed s'.
+
+Lemma add_eqre lim s s' t : eqre s s' ->
+  eqre (fst (add lim s t)) (fst (add lim s' t)) /\ snd (add lim s t) = snd (add lim s' t).
+Proof.
+  intros [E1 E2]. unfold add, existed, in_received, in_executed, exec_keys, push. rewrite E1, E2.
+  destruct (_ || _); simpl; [split; [split|]; auto|].
+  destruct (_ <? _); simpl; split; try split; auto.
+Qed.
+
+Lemma unmark1_eqre lim s s' t : eqre s s' -> eqre (unmark1 lim s t) (unmark1 lim s' t).
+Proof.
+  intros [E1 E2]. unfold unmark1. apply add_eqre. split; simpl; congruence.
+Qed.
+
+Lemma fold_unmark1_eqre lim txs : forall s s', eqre s s' ->
+  eqre (fold_left (unmark1 lim) txs s) (fold_left (unmark1 lim) txs s').
+Proof. induction txs; simpl; intros; auto. apply IHtxs. apply unmark1_eqre. auto. Qed.
+
+Lemma step_eqre lim s s' o : eqre s s' -> eqre (step lim s o) (step lim s' o).
+Proof.
+  intro E. destruct o as [t|txs ev|txs ev| |h|hs]; simpl; auto.
+  - apply add_eqre. exact E.
+  - destruct E as [E1 E2]. split; simpl; congruence.
+  - unfold unmark. destruct txs; auto. apply fold_unmark1_eqre. destruct E as [E1 E2]. split; simpl; auto.
+  - destruct E as [E1 E2]. split; simpl; congruence.
+Qed.
+
+Lemma run_eqre lim ops : forall s s', eqre s s' -> eqre (run lim s ops) (run lim s' ops).
+Proof. unfold run. induction ops; simpl; intros; auto. apply IHops. apply step_eqre. auto. Qed.
+
+Lemma pack_eqre f st cap s s' : eqre s s' -> pack f st cap s = pack f st cap s'.
+Proof. intros [E1 _]. unfold pack. rewrite E1. reflexivity. Qed.
+
+Lemma evicted_irrelevant lim ops s ev' t f st cap :
+  let s' := mkPool (received s) (executed s) ev' in
+  eqre (run lim s ops) (run lim s' ops) /\
+  snd (add lim (run lim s ops) t) = snd (add lim (run lim s' ops) t) /\
+  pack f st cap (run lim s ops) = pack f st cap (run lim s' ops).
+Proof.
+  cbv zeta. assert (E : eqre (run lim s ops) (run lim (mkPool (received s) (executed s) ev') ops)).
+  { apply run_eqre. split; reflexivity. }
+  split; [exact E|]. split; [apply add_eqre; exact E | apply pack_eqre; exact E].
+Qed.
+
+Lemma lru_add_bound l h : (length (lru_add l h) <= N.to_nat evict_cap)%nat.
+Proof. unfold lru_add. apply firstn_le_length. Qed.
+
+Lemma lru_add_in l h : In h (lru_add l h).
+Proof. unfold lru_add. vm_compute N.to_nat. simpl. left. reflexivity. Qed.
+
+(* ---------- MarkExecuted's calling convention ---------- *)
+Lemma find_tx_spec txs h i t : find_tx txs h i = Some t -> In t txs /\ thash t = h.
+Proof.
+  unfold find_tx. intro H.
+  assert (Hf : forall t0, find (fun t => thash t =? h) txs = Some t0 -> In t0 txs /\ thash t0 = h).
+  { intros t0 E. apply find_some in E as [E1 E2]. apply N.eqb_eq in E2. auto. }
+  destruct (nth_error txs i) as [x|] eqn:En; [|auto].
+  destruct (N.eqb_spec (thash x) h); [|auto]. inversion H; subst. split; auto. eapply nth_error_In; eauto.
+Qed.
+
+Lemma find_tx_none txs h i : find_tx txs h i = None -> ~ In h (hashes txs).
+Proof.
+  unfold find_tx. intros H Hi. apply in_map_iff in Hi as [x [E Hx]].
+  assert (Hf : find (fun t => thash t =? h) txs = None -> False).
+  { intro Hn. apply (find_none _ _ Hn) in Hx. rewrite E, N.eqb_refl in Hx. discriminate. }
+  destruct (nth_error txs i) as [y|]; [|auto]. destruct (thash y =? h); [discriminate | auto].
+Qed.
+
+Lemma resolve_ok rc txs : forall i l,
+  resolve_from i rc txs = Some l -> hashes l = rc /\ incl l txs.
+Proof.
+  induction rc as [|h r IH]; intros i l H; simpl in H.
+  - inversion H. split; [reflexivity | intros ? []].
+  - destruct (find_tx txs h i) as [t|] eqn:Ef; [|discriminate].
+    destruct (resolve_from (S i) r txs) as [l'|] eqn:Er; [|discriminate]. inversion H; subst.
+    apply find_tx_spec in Ef as [Hin Hh]. destruct (IH _ _ Er) as [H1 H2]. split.
+    + simpl. congruence.
+    + intros x [<-|Hx]; auto.
+Qed.
+
+Lemma resolve_total rc txs : forall i,
+  (forall h, In h rc -> In h (hashes txs)) <-> resolve_from i rc txs <> None.
+Proof.
+  induction rc as [|h r IH]; intro i; simpl.
+  - split; [discriminate | intros _ ? []].
+  - split.
+    + intros Hall. destruct (find_tx txs h i) eqn:Ef.
+      * destruct (resolve_from (S i) r txs) eqn:Er; [discriminate|].
+        exfalso. apply (proj1 (IH (S i))); auto.
+      * exfalso. apply (find_tx_none _ _ _ Ef). auto.
+    + intros Hn x [<-|Hx].
+      * destruct (find_tx txs h i) eqn:Ef; [|congruence]. apply find_tx_spec in Ef as [Hin <-].
+        apply in_map. exact Hin.
+      * apply (proj2 (IH (S i))); auto.
+        destruct (find_tx txs h i); [|congruence]. destruct (resolve_from (S i) r txs); congruence.
+Qed.
+
+Lemma mark_call_spec s rc txs ev :
+  ((forall h, In h rc -> In h (hashes txs)) <-> mark_call s rc txs ev <> None) /\
+  (forall s', mark_call s rc txs ev = Some s' ->
+     exists l, s' = mark_executed s l ev /\ hashes l = rc /\ incl l txs).
+Proof.
+  unfold mark_call. split.
+  - rewrite (resolve_total rc txs 0). destruct (resolve_from 0 rc txs); split; congruence.
+  - intros s' H. destruct (resolve_from 0 rc txs) as [l|] eqn:E; [|discriminate]. inversion H; subst.
+    exists l. destruct (resolve_ok _ _ _ _ E). auto.
+Qed.
+
+(* a block transaction without a receipt (and not evicted) is untouched: still pending, not executed *)
+Lemma mark_call_unreceipted s rc txs ev s' t :
+  mark_call s rc txs ev = Some s' -> In t (received s) -> ~ In (thash t) rc -> ~ In (thash t) ev ->
+  In t (received s') /\ (In (thash t) (exec_keys s') -> In (thash t) (exec_keys s)).
+Proof.
+  intros H Hr Hn1 Hn2. apply mark_call_spec in H as [l [-> [Hl _]]]. split.
+  - unfold mark_executed. simpl. apply filter_In. split; auto. apply negb_true_iff. apply memN_false.
+    intro Hi. apply in_app_or in Hi as [Hi|Hi]; [rewrite Hl in Hi|]; contradiction.
+  - unfold mark_executed, exec_keys. simpl. intro Hk. apply fold_put_keys in Hk as [Hk|Hk]; auto.
+    rewrite Hl in Hk. contradiction.
+Qed.
+
+(* ---------- Clear ---------- *)
+Lemma mark_detached_inv s txs ev : inv s -> inv (mark_detached s txs ev).
+Proof.
+  intros [Hd Hx]. split; unfold mark_detached, mark_executed, hashes, exec_keys in *; simpl.
+  - apply NoDup_map_filter. exact Hd.
+  - intros h Hh. apply in_map_filter in Hh as [x [Hxin [E _]]]. subst. apply Hx. apply in_map. exact Hxin.
+Qed.
+
+Lemma xstep_inv lim s o : inv (xp s) -> inv (xp (xstep lim s o)).
+Proof.
+  intro H. destruct o as [o|ns]; simpl.
+  - destruct o as [t|txs ev|txs ev| |h|hs]; simpl.
+    + apply add_inv. exact H.
+    + destruct (detached s); simpl; [apply mark_detached_inv | apply mark_inv]; exact H.
+    + apply unmark_inv. exact H.
+    + exact H.
+    + exact H.
+    + apply expire_inv. exact H.
+  - destruct (detached s); split; simpl; try constructor; intros ? [].
+Qed.
+
+Lemma xrun_inv lim ops : forall s, inv (xp s) -> inv (xp (xrun lim s ops)).
+Proof. induction ops; simpl; intros; auto. apply IHops. apply xstep_inv. auto. Qed.
+
+(* what Clear does: pending emptied, evicted cache kept, executed store swapped *)
+Lemma clear_effect lim s ns :
+  let s' := xstep lim s (XClear ns) in
+  received (xp s') = [] /\ evicted (xp s') = evicted (xp s) /\ detached s' = true /\
+  (detached s = false -> executed (xp s') = ns /\ oldstore s' = executed (xp s)).
+Proof. cbv zeta. simpl. destruct (detached s); simpl; repeat split; auto; discriminate. Qed.
+
+(* executed transactions are forgotten by Clear, and blocks marked after a Clear are never seen *)
+Lemma clear_forgets :
+  let t := mkTx 5 1 0 0 in let u := mkTx 6 1 1 0 in
+  let f := mkFlags true true true true in
+  let s1 := xrun 10 xinit [XOp (OAdd t); XOp (OMark [t] []); XClear []] in
+  let s2 := xrun 10 s1 [XOp (OAdd u); XOp (OMark [u] [])] in
+  In (thash t) (map fst (oldstore s1)) /\
+  add 10 (xp s1) t = (xp (xstep 10 s1 (XOp (OAdd t))), AOk) /\
+  In t (pack f (fun _ => 1) 200 (xp (xstep 10 s1 (XOp (OAdd t))))) /\
+  In (thash u) (map fst (oldstore s2)) /\ snd (add 10 (xp s2) u) = AOk.
+Proof. vm_compute. repeat split; auto. Qed.
 
 (* ---------- packaged statements used by Props.v ---------- *)
 Lemma marked_both s txs ev t : In t txs ->
